@@ -1,9 +1,9 @@
-import Spk.Machine3 -- (spike: module Spk.Machine3 = spikes/Machine.lean)
+import Spk.Machine4 -- (spike: module Spk.Machine4 = spikes/Machine.lean)
 /-
 Spike: the explicit call stack of `BitMachine::exec_with_tracker` is the defunctionalised `run`
 (all node kinds, including disconnect's `CopyFwd`).
 -/
-namespace BM3
+namespace BM4
 
 @[simp] theorem ok_bind'' {ε α β} (x : α) (f : α → Except ε β) : (Except.ok x >>= f) = f x := rfl
 @[simp] theorem err_bind'' {ε α β} (e : ε) (f : α → Except ε β) :
@@ -279,4 +279,4 @@ theorem loop_eq_run {a b : Ty} (t : Term a b) (m : M) :
   | error e => rfl
 
 #print axioms loop_eq_run
-end BM3
+end BM4
